@@ -82,6 +82,9 @@ fn case_strategy(tier: Tier) -> BoxedStrategy<CbcCase> {
             4 => (1u64..=8).prop_map(|k| Lat::Ms(k * 10)),
             2 => (1u64..=90).prop_map(Lat::Ms),
             1 => Just(Lat::Never),
+            // the trial's inner future uses up the cooperative budget in the poll it completes in:
+            // the breaker's next lock().await then yields once
+            1 => (0u64..=8).prop_map(|k| Lat::MsDrain(k * 10)),
         ],
         prop_oneof![
             4 => Just(Out::Ok),
